@@ -12,6 +12,7 @@ for c in C01 C02 C03 C04 C05 C06 C07 C08 C09 C10 C11 C12 C13 C14 C15 C16 C17; do
   if [ $rc -ne 0 ]; then fired="$fired $c(rc=$rc)"; echo "$o" | grep -E "VIOLATION|machinery|error" | head -3 | cut -c1-500 > $dest/alarm_$c.txt; fi
 done
 git -C /repo checkout -- .
+git -C /verif checkout -q -- evidence  # evidence written while the patch was applied is not evidence about /repo
 echo "$name: suite: $suite ; checks that raised an alarm ($tier):${fired:- none}"
 python3 - "$name" "$suite" "$fired" "$tier" <<'PY'
 import json,sys
